@@ -76,6 +76,18 @@ def run(ctx):
             cfg = pl.UNIFORM[rng.choice(["a16w8", "a16w8", "a8w8", "a8sw8t"])]
             cmds = [{"k": "add", "regex": ".*", "operation": "*", "cfg": cfg, "alg": "min_max_uniform_quantize"}]
             return fp.Case(mb, info, cmds=cmds, data=data, desc=[("near-equal", ".*", "*", cfg["act"]["bits"])])
+        if i % 10 == 3:
+            # the operators whose output must share the input's parameters (or the other way round), with fused activations, under
+            # static-range rules: the op-level rules of the spec do not depend on the operator's options
+            from .. import gen_models as gm
+            mb, info = gm.gen_model(rng, n_ops=rng.randint(2, 5), n_subgraphs=1, p_unsupported=0.0, fused_act=0.6, alias_sig=0.0,
+                                    kinds=["AVERAGE_POOL_2D", "AVERAGE_POOL_2D", "CONV_2D", "RESHAPE", "TRANSPOSE", "STRIDED_SLICE", "SPLIT", "CONCATENATION",
+                                           "FULLY_CONNECTED", "TANH"])
+            data = gm.random_inputs(mb, rng, n=rng.randint(1, 2), spread=True)
+            cfg = pl.UNIFORM[rng.choice(["a8w8", "a16w8", "a8sw8t"])]
+            cmds = [{"k": "add", "regex": ".*", "operation": "*", "cfg": cfg, "alg": "min_max_uniform_quantize"}]
+            info["tags"].add("same_scale_ops_with_fused_activations")
+            return fp.Case(mb, info, cmds=cmds, data=data, desc=[("same-scale ops", ".*", "*", cfg["act"]["bits"])])
         return fp.gen_case(rng, i)
     fp.explore(ctx, drv, 600 if ctx.tier == "quick" else 3000, per_case, gen=gen, graph_corr=False, mat_corr=True)
     drv.close()
